@@ -504,11 +504,18 @@ func makeTopDict(info *type1.FontInfo) cffDict {
 	if info.ItalicAngle != 0 {
 		topDict[opItalicAngle] = []interface{}{info.ItalicAngle}
 	}
+	// store integers as DICT integers and everything else as a real number
+	number := func(x float64) interface{} {
+		if i := int32(x); float64(i) == x {
+			return i
+		}
+		return x
+	}
 	if info.UnderlinePosition != defaultUnderlinePosition {
-		topDict[opUnderlinePosition] = []interface{}{int32(info.UnderlinePosition)}
+		topDict[opUnderlinePosition] = []interface{}{number(float64(info.UnderlinePosition))}
 	}
 	if info.UnderlineThickness != defaultUnderlineThickness {
-		topDict[opUnderlineThickness] = []interface{}{int32(info.UnderlineThickness)}
+		topDict[opUnderlineThickness] = []interface{}{number(float64(info.UnderlineThickness))}
 	}
 	// if info.IsOutlined {
 	// 	topDict[opPaintType] = []interface{}{int32(2)} // per font
